@@ -244,7 +244,39 @@ REG.fn(BF_, "bfs", prop="C11", ret="Result[opaque]", lemmas=["bfslev"], dead_ret
                   "forall(p, implies(0 <= p < len(queue), lev[current] <= lev[queue[p]] and lev[queue[p]] <= lev[current] + 1), trig=queue[p])",
               ])})
 
-for name, cont, st_ok in (("dfs", "stack", 2),):
+# ---- dfs (with a goal): a genuine path, and INFEASIBLE only with a visited set that is closed under the edges and holds no goal
+SREL = "forall(i, implies(0 <= i < len(Nb({u})), has(visited, Nb({u})[i])), trig=Nb({u})[i])"
+SI = [
+    "has(visited, start)", "not has(parent, start)", "is_set(is_goal)",
+    "forall(v, implies(has(visited, v) and v != start, has(parent, v)), sorts={'v': 'U<S>'}, trig=has(visited, v))",
+    "forall(v, implies(has(parent, v), has(visited, v) and has(visited, get(parent, v)) and done[get(parent, v)] and 0 <= pi[v] < len(Nb(get(parent, v))) and Nb(get(parent, v))[pi[v]] == v), sorts={'v': 'U<S>'}, trig=has(parent, v))",
+    "forall(v, implies(done[v], has(visited, v) and not goalp(v)), sorts={'v': 'U<S>'}, trig=done[v])",
+    "forall(p, implies(0 <= p < len(stack), has(visited, stack[p]) and not done[stack[p]] and where[stack[p]] == p), trig=stack[p])",
+    "forall(v, implies(has(visited, v) and not done[v], 0 <= where[v] < len(stack) and stack[where[v]] == v), sorts={'v': 'U<S>'}, trig=has(visited, v))",
+]
+REG.fn(BF_, "dfs", prop="C11", ret="Result[opaque]", dead_returns_ok=True,  # the traversal-mode return is excluded by the requires
+       types={"goal": "opaque", "neighbors": "fun:Nb", "is_goal": "fun:goalp", "path": "list[U<S>]",
+              "parent": "dict[U<S>,U<S>]", "visited": "set[U<S>]", "stack": "list[U<S>]",
+              "done": "map[U<S>,bool]", "where": "map[U<S>,int]", "pi": "map[U<S>,int]"},
+       requires=["is_set(is_goal)"],
+       ghost_before=[("visited: set[S] = {start}", "done", "lam(v, False, sort='U<S>')"),
+                     ("visited: set[S] = {start}", "where", "lam(v, 0, sort='U<S>')"),
+                     ("visited: set[S] = {start}", "pi", "lam(v, 0, sort='U<S>')")],
+       ghost_after=[("current = stack.pop()", "done", "store(done, current, True)"),
+                    ("parent[neighbor] = current", "pi", "store(pi, neighbor, _k2)"),
+                    ("stack.append(neighbor)", "where", "store(where, neighbor, len(stack) - 1)")],
+       ensures=[
+           "implies(defined('path'), result.status == 2 and len(path) >= 1 and path[0] == start and goalp(path[len(path) - 1]) and result.objective == len(path) - 1)",
+           "implies(defined('path'), forall(i, implies(0 <= i < len(path) - 1, 0 <= pi[path[i + 1]] < len(Nb(path[i])) and Nb(path[i])[pi[path[i + 1]]] == path[i + 1]), trig=path[i]))",
+           "implies(result.status == 3, has(visited, start) and forall(u, implies(has(visited, u), done[u] and not goalp(u) and " + SREL.format(u="u") + "), sorts={'u': 'U<S>'}, trig=has(visited, u)))",
+       ],
+       loops={1: LoopSpec(invariants=SI + ["forall(u, implies(done[u], " + SREL.format(u="u") + "), sorts={'u': 'U<S>'}, trig=done[u])"]),
+              2: LoopSpec(invariants=SI + [
+                  "has(visited, current)", "done[current]",
+                  "forall(u, implies(done[u] and u != current, " + SREL.format(u="u") + "), sorts={'u': 'U<S>'}, trig=done[u])",
+                  "forall(i, implies(0 <= i < _k2, has(visited, Nb(current)[i])), trig=Nb(current)[i])"])})
+
+for name, cont, st_ok in ():
     REG.fn(BF_, name, prop="C11", ret="Result[opaque]",
            types={"goal": "opaque", "neighbors": "fun:unbr", "is_goal": "fun:isgoal", "path": "list[U<S>]",
                   "parent": "dict[U<S>,U<S>]", "visited": "set[U<S>]", cont: "list[U<S>]"},
